@@ -245,7 +245,8 @@ def run_replay(prop, path):
     mod = importlib.import_module("checks.%s" % prop.lower())
     with open(path) as f:
         rec = json.load(f)
-    fails = mod.replay(engine.unjson(rec["case"]))
+    case = engine.unjson(rec["case"])
+    fails = [] if (isinstance(case, dict) and case.get("kind") == "execution") else mod.replay(case)
     fails = [f for f in fails if f["clause"] == rec["clause"]] or fails
     if not fails and rec.get("choices") is not None and rec.get("harness"):
         # the case alone passes in a fresh process: re-execute the whole recorded execution (all cases of
@@ -254,6 +255,19 @@ def run_replay(prop, path):
         if hs:
             ctx = engine._run(hs[0]["body"], list(rec["choices"]), engine.Stats(), hs[0].get("bound"))
             fails = [f for f in ctx.failures if f["clause"] == rec["clause"]]
+            if not fails:
+                # still passing: the observation may depend on calls made by EARLIER executions of the same worker
+                # (module-level state in the library).  Explore the harness sequentially from its root for up to
+                # 60 s and stop at the first failure of the same clause.
+                st = engine.Stats()
+                t_end = time.time() + 60
+
+                def stop_body(c, _b=hs[0]["body"]):
+                    if time.time() > t_end or st.n_violations:
+                        return
+                    _b(c)
+                engine.explore(stop_body, (), hs[0].get("bound"), st)
+                fails = [v for v in st.violations if v["clause"] == rec["clause"]]
     if fails:
         print("VIOLATION property=%s replay=%s" % (prop, path))
         for fl in fails[:5]:
